@@ -11,7 +11,7 @@ from p11client import Exec, Died, Hang, mkconf
 import keymat
 
 SO0, U0, SO1, U1 = b'so-pin-zero', b'user-pin-zero', b'so-pin-one1', b'user-pin-one'
-ATTRS = ['CKA_CLASS', 'CKA_TOKEN', 'CKA_PRIVATE', 'CKA_LABEL', 'CKA_ID', 'CKA_KEY_TYPE', 'CKA_VALUE', 'CKA_VALUE_LEN', 'CKA_APPLICATION', 'CKA_EC_PARAMS', 'CKA_EC_POINT', 'CKA_ENCRYPT', 'CKA_SIGN',
+ATTRS = ['CKA_CLASS', 'CKA_TOKEN', 'CKA_PRIVATE', 'CKA_LABEL', 'CKA_ID', 'CKA_KEY_TYPE', 'CKA_VALUE', 'CKA_VALUE_LEN', 'CKA_APPLICATION', 'CKA_EC_PARAMS', 'CKA_EC_POINT', 'CKA_ENCRYPT', 'CKA_SIGN', 'CKA_DECRYPT', 'CKA_VERIFY', 'CKA_WRAP', 'CKA_UNWRAP',
          'CKA_SENSITIVE', 'CKA_EXTRACTABLE', 'CKA_MODIFIABLE', 'CKA_LOCAL', 'CKA_ALWAYS_SENSITIVE', 'CKA_NEVER_EXTRACTABLE', 'CKA_DERIVE', 'CKA_MODULUS', 'CKA_PUBLIC_EXPONENT', 'CKA_SUBJECT']
 RANDOM_ATTRS = {'CKA_VALUE', 'CKA_EC_POINT', 'CKA_CHECK_VALUE', 'CKA_MODULUS'}     # differ between two runs of a generating call
 
@@ -44,6 +44,7 @@ KINDS = {
  'C_GenerateKey':       dict(pre=pre_user, call=lambda x, e: x.call('C_GenerateKey', s=e['s'], mech=x.M('CKM_AES_KEY_GEN'), tmpl=x.T({'CKA_VALUE_LEN': 32, 'CKA_TOKEN': True, 'CKA_PRIVATE': True, 'CKA_LABEL': b'NEW', 'CKA_SENSITIVE': False, 'CKA_EXTRACTABLE': True})), written=['NEW'], generated=True),
  'C_GenerateKeyPair':   dict(pre=pre_user, call=lambda x, e: x.call('C_GenerateKeyPair', s=e['s'], mech=x.M('CKM_EC_KEY_PAIR_GEN'), pub=x.T({'CKA_EC_PARAMS': keymat.OID['p256'], 'CKA_TOKEN': True, 'CKA_LABEL': b'NEWpub'}), priv=x.T({'CKA_TOKEN': True, 'CKA_PRIVATE': True, 'CKA_LABEL': b'NEWpriv', 'CKA_SENSITIVE': False, 'CKA_EXTRACTABLE': True})), written=['NEWpub', 'NEWpriv'], generated=True),
  'C_SetAttributeValue': dict(pre=lambda x, e: (pre_user(x, e), e.__setitem__('o', find1(x, e['s'], b'K1'))), call=lambda x, e: x.call('C_SetAttributeValue', s=e['s'], o=e['o'], tmpl=x.T({'CKA_ID': b'changed-id'})), written=['K1']),
+ 'C_SetAttributeValue(multi)': dict(pre=lambda x, e: (pre_user(x, e), e.__setitem__('o', find1(x, e['s'], b'K1'))), call=lambda x, e: x.call('C_SetAttributeValue', s=e['s'], o=e['o'], tmpl=x.T({'CKA_ID': b'changed-id', 'CKA_ENCRYPT': False, 'CKA_DECRYPT': False, 'CKA_SIGN': False, 'CKA_VERIFY': False, 'CKA_WRAP': False, 'CKA_DERIVE': False})), written=['K1']),
  'C_CopyObject':        dict(pre=lambda x, e: (pre_user(x, e), e.__setitem__('o', find1(x, e['s'], b'K1'))), call=lambda x, e: x.call('C_CopyObject', s=e['s'], o=e['o'], tmpl=x.T({'CKA_LABEL': b'NEW'})), written=['NEW']),
  'C_DestroyObject':     dict(pre=lambda x, e: (pre_user(x, e), e.__setitem__('o', find1(x, e['s'], b'K1'))), call=lambda x, e: x.call('C_DestroyObject', s=e['s'], o=e['o']), written=['K1']),
  'C_UnwrapKey':         dict(pre=lambda x, e: (pre_user(x, e), e.__setitem__('o', find1(x, e['s'], b'K1')), e.__setitem__('blob', x.call('C_WrapKey', s=e['s'], mech=x.M('CKM_AES_KEY_WRAP'), wkey=e['o'], key=find1(x, e['s'], b'K2'), buf=128)['out']['data'])),
@@ -226,7 +227,8 @@ def crash_job(job):
 
 def run(ctx):
     ctx.need('plain', 'asan'); ck = ctx.ck
-    kinds = list(KINDS); backends = ctx.q(('file',), ('file', 'db')); jobs = []; idx = 0; plan = {}
+    kinds = list(KINDS); backends = ('file', 'db'); jobs = []; idx = 0; plan = {}
+    QUICK_DB = ('C_SetAttributeValue', 'C_SetAttributeValue(multi)', 'C_DestroyObject', 'C_SetPIN(user)', 'C_Login(wrong-pin)', 'C_InitPIN')
     for backend in backends:
         for big in ((False,) if ctx.quick else (False, True)):
             tdir = ctx.dir(f'template-{backend}-{int(big)}'); make_template(ctx.paths, ck, tdir, backend, big)
@@ -235,7 +237,8 @@ def run(ctx):
                 if f.startswith(('stderr', 'trace')): os.unlink(os.path.join(tdir, f))
             if 'tokA' not in S0['tokens'] or len(S0['tokens']['tokA']['objects']) != 4: raise AssertionError('template probe unexpected: %r' % S0)
             for kind in kinds:
-                if big and kind not in ('C_SetAttributeValue', 'C_CopyObject', 'C_DestroyObject', 'C_Login(right-pin)'): continue
+                if big and kind not in ('C_SetAttributeValue', 'C_SetAttributeValue(multi)', 'C_CopyObject', 'C_DestroyObject', 'C_Login(right-pin)'): continue
+                if ctx.quick and backend == 'db' and kind not in QUICK_DB: continue
                 d = ctx.dir('dry'); shutil.rmtree(d); shutil.copytree(tdir, d); mkconf(d, backend)
                 how, res = run_victim(ctx.paths, ck, d, kind, None)
                 if how != 'returned': ctx.inconc(f'dry run of {kind} died: {res}'); continue
